@@ -7,6 +7,7 @@ import (
 	"fmt"
 	"go/token"
 	"go/types"
+	"golang.org/x/tools/go/ssa"
 	"unicode/utf8"
 )
 
@@ -368,7 +369,36 @@ func minmax(i *interpreter, fn value, a, b value, isMin bool) value {
 		}
 		panic(fmt.Sprintf("min/max: unsupported %T", a))
 	}
-	i.abort("min/max on symbolic operands")
+	// symbolic integer operands: ite(a < b, a, b) under the operand type's signedness
+	if bi, ok := fn.(*ssa.Builtin); ok {
+		if sig, ok := bi.Type().(*types.Signature); ok && sig.Params().Len() > 0 {
+			T := sig.Params().At(0).Type()
+			if sl, ok := T.(*types.Slice); ok { // variadic tail
+				T = sl.Elem()
+			}
+			if bt, ok := T.Underlying().(*types.Basic); ok && bt.Info()&types.IsInteger != 0 {
+				w := 0
+				if t, ok := a.(*Term); ok {
+					w = t.w
+				} else if t, ok := b.(*Term); ok {
+					w = t.w
+				}
+				lt := binop(i, token.LSS, T, a, b)
+				if c, ok := lt.(bool); ok {
+					if c == isMin {
+						return a
+					}
+					return b
+				}
+				ta, tb2 := toTerm(i, a, w), toTerm(i, b, w)
+				if isMin {
+					return norm(T, i.tb.Ite(lt.(*Term), ta, tb2))
+				}
+				return norm(T, i.tb.Ite(lt.(*Term), tb2, ta))
+			}
+		}
+	}
+	i.abort("min/max on symbolic operands (non-integer)")
 	return nil
 }
 
@@ -463,4 +493,3 @@ func symConv(i *interpreter, t_dst, t_src types.Type, x value) (value, bool) {
 	}
 	return nil, false
 }
-
